@@ -1,8 +1,78 @@
 import Driver.Proto
+import Verif.Spec.HtmlAttr
+import Verif.Model.HtmlAttr
+import Verif.Spec.HtmlKnown
 /-! driver handlers for property C03 (ops `model.*`, `spec.*`, `trig.*`) -/
 namespace Verif.Driver.C03
 open Verif Verif.Driver
+open Verif.Gen
 
-def handlers : List (String × Handler) := []
+def utf8 (n : Nat) : Bytes :=
+  let b (x : Nat) : UInt8 := UInt8.ofNat x
+  if n < 0x80 then [b n]
+  else if n < 0x800 then [b (0xC0 + n / 64), b (0x80 + n % 64)]
+  else if n < 0x10000 then [b (0xE0 + n / 4096), b (0x80 + n / 64 % 64), b (0x80 + n % 64)]
+  else [b (0xF0 + n / 262144), b (0x80 + n / 4096 % 64), b (0x80 + n / 64 % 64), b (0x80 + n % 64)]
+
+def duBytes : Spec.HtmlAttr.DU → Bytes
+  | .lit c => [charToByte c]
+  | .cp n => utf8 n
+
+/-- `model.c03.replent mode raw` — mode 0: ReplaceEntities text maps, 1: attr (rev = nil),
+    2: ReplaceMultipleWhitespaceAndEntities text maps, 3: same with rev = nil -/
+def replent : Handler := fun args => do
+  let mode ← argNat args 0
+  let raw ← argChars args 1
+  let em := C03Tables.entitiesMap
+  let rev := C03Tables.textRevEntitiesMap
+  let out := match mode with
+    | 0 => Model.HtmlAttr.replaceEntities em rev raw
+    | 1 => Model.HtmlAttr.replaceEntities em [] raw
+    | 2 => Model.HtmlAttr.replaceWsEntities em rev raw
+    | _ => Model.HtmlAttr.replaceWsEntities em [] raw
+  .ok (charsToBytes out)
+
+def quoteOf (n : Nat) : Model.HtmlAttr.Quote :=
+  if n = 39 then .single else if n = 34 then .double else .none
+
+/-- `model.c03.escape val origQuote(0|34|39) mustQuote` -/
+def escape : Handler := fun args => do
+  let v ← argChars args 0
+  let q ← argNat args 1
+  let must ← argBool args 2
+  .ok (charsToBytes (Model.HtmlAttr.escapeAttrVal v (quoteOf q) must))
+
+def trimWs : Handler := fun args => do
+  let v ← argChars args 0
+  .ok (charsToBytes (Model.HtmlAttr.trimWhitespace v))
+
+/-- `spec.c03.decode attr raw` → UTF-8 rendering of the decoded units -/
+def decode : Handler := fun args => do
+  let attr ← argBool args 0
+  let raw ← argChars args 1
+  .ok ((Spec.HtmlAttr.decodeRefs attr raw).foldr (fun u acc => duBytes u ++ acc) [])
+
+/-- `spec.c03.tokattr s` → `[raw, rest]` or `[]` when `s` does not start with a conforming attribute value -/
+def tokattr : Handler := fun args => do
+  let s ← argChars args 0
+  match Spec.HtmlAttr.tokenizeAttr s with
+  | some (raw, rest) => .ok (listReply [strBytes "ok", charsToBytes raw, charsToBytes rest])
+  | none => .ok (listReply [strBytes "none"])
+
+/-- `trig.c03.refs attr raw` → names of the known-finding triggers the raw text falls under, or `none` -/
+def trigRefs : Handler := fun args => do
+  let raw ← argChars args 1
+  let names := (if Spec.HtmlKnown.glue raw then ["glue"] else []) ++
+    (if Spec.HtmlKnown.ctlRef raw then ["ctlref"] else []) ++
+    (if Spec.HtmlKnown.hexOverflow raw then ["hexoverflow"] else [])
+  .ok (strBytes (if names.isEmpty then "none" else ",".intercalate names))
+
+def handlers : List (String × Handler) := [
+  ("trig.c03.refs", trigRefs),
+  ("model.c03.replent", replent),
+  ("model.c03.escape", escape),
+  ("model.c03.trimws", trimWs),
+  ("spec.c03.decode", decode),
+  ("spec.c03.tokattr", tokattr)]
 
 end Verif.Driver.C03
